@@ -92,17 +92,25 @@ fn conv_seq<A: Alphabet>(r: Result<EncodedSequence<A>, InvalidSymbol>) -> Outcom
 fn encode_all<A: Alphabet, P: Encode<A>>(name: &'static str, pli: &P, text: &[u8], out: &mut Vec<(&'static str, &'static str, Outcome)>) {
     out.push((name, "encode_raw", conv::<A>(pli.encode_raw(text))));
     out.push((name, "encode", conv_seq::<A>(pli.encode(text))));
-    // a reused destination: every element starts as a symbol that is NOT the right one for its position
+    // a reused destination: every element starts as a symbol that is NOT the right one for its position; the
+    // destination is once a whole vector and once a sub-slice starting 1..15 elements into a larger buffer
+    // (a destination that is not 16-byte aligned)
     let syms = A::symbols();
-    let mut dst: Vec<A::Symbol> = text
-        .iter()
-        .map(|b| {
-            let right = A::as_str().as_bytes().iter().position(|l| l == b).unwrap_or(0);
-            syms[(right + 1) % syms.len()]
-        })
-        .collect();
+    let wrong = |b: &u8| {
+        let right = A::as_str().as_bytes().iter().position(|l| l == b).unwrap_or(0);
+        syms[(right + 1) % syms.len()]
+    };
+    let mut dst: Vec<A::Symbol> = text.iter().map(wrong).collect();
     let r = pli.encode_into(text, &mut dst);
     out.push((name, "encode_into", conv::<A>(r.map(|_| dst))));
+    let off = 1 + text.len() % 15;
+    let mut big: Vec<A::Symbol> = vec![syms[0]; off];
+    big.extend(text.iter().map(wrong));
+    big.extend(std::iter::repeat(syms[1]).take(17));
+    let r = pli.encode_into(text, &mut big[off..off + text.len()]);
+    // the elements around the destination must be left alone
+    let untouched = big[..off].iter().all(|s| s.as_index() == syms[0].as_index()) && big[off + text.len()..].iter().all(|s| s.as_index() == syms[1].as_index());
+    out.push((name, "encode_into(sub-slice)", conv::<A>(r.map(|_| if untouched { big[off..off + text.len()].to_vec() } else { Vec::new() }))));
 }
 
 fn run<A: Alphabet>(case: &Case, text: &[u8], info: &mut CaseInfo) -> Option<Failure> {
@@ -177,7 +185,7 @@ impl Sub for Bytes {
         "bytes"
     }
     fn rule(&self) -> &'static str {
-        "valid text (both alphabets, lengths 0..200 quick / ..5000 thorough, biased to multiples of 16 +-3, plus texts around 1..4 x 4096 bytes) with 0-2 injected bytes from all 256 values (lower case, other alphabet's letters, NUL, >=0x80, punctuation) at positions relative to the 16/32-byte blocks and the scalar tail; encode / encode_raw / encode_into (into a reused destination holding a wrong symbol at every position) on generic, sse2, avx2 and the dispatcher forced to each arm, EncodedSequence::encode, from_str, Display compared with the model (ok iff all bytes in the alphabet; first offending byte reported); sweep = every length n <= 40 (quick) / 100 (thorough) x every position x every byte value, plus texts of 8192..16389 (thorough: ..32785 and 2 MiB) bytes with an invalid byte at each of the 68 positions around every multiple of 4096, alone and followed by a second one; non-trivial = n > 32 (vector path taken)"
+        "valid text (both alphabets, lengths 0..200 quick / ..5000 thorough, biased to multiples of 16 +-3, plus texts around 1..4 x 4096 bytes) with 0-2 injected bytes from all 256 values (lower case, other alphabet's letters, NUL, >=0x80, punctuation) at positions relative to the 16/32-byte blocks and the scalar tail; encode / encode_raw / encode_into (into a reused destination holding a wrong symbol at every position, a whole vector and a sub-slice at offset 1..15 of a larger buffer) on generic, sse2, avx2 and the dispatcher forced to each arm, EncodedSequence::encode, from_str, Display compared with the model (ok iff all bytes in the alphabet; first offending byte reported); sweep = every length n <= 40 (quick) / 100 (thorough) x every position x every byte value, plus texts of 8192..16389 (thorough: ..32785 and 2 MiB) bytes with an invalid byte at each of the 68 positions around every multiple of 4096, alone and followed by a second one; non-trivial = n > 32 (vector path taken)"
     }
     fn cases(&self, tier: Tier) -> u64 {
         tier.pick(150_000, 4_000_000)
